@@ -307,3 +307,45 @@ Proof.
   inversion H1; subst. cbn [objects_object_ids map] in *.
   f_equal; [apply object_id_pack; assumption|apply IH; assumption].
 Qed.
+
+(* ---------- collection-level id functions ---------- *)
+
+Lemma coll_order_in_range which l :
+  Forall in_range3 l -> Forall (fun t => is_element (fst (fst t)) = true) l ->
+  Forall in_range3 (coll_order which l) /\
+  Forall (fun t => is_element (fst (fst t)) = true) (coll_order which l).
+Proof.
+  intros H1 H2. unfold coll_order. destruct (which =? 5); [|split; assumption].
+  rewrite Forall_forall in H1, H2.
+  split; apply Forall_forall; intros t Ht;
+    repeat (apply in_app_or in Ht; destruct Ht as [Ht|Ht]);
+    apply filter_In in Ht; destruct Ht as [Ht _]; auto.
+Qed.
+
+(* every id of the list decodes to the kind, reference and version of its item, version 0
+   included: the lists are the packed ids of the items, in order *)
+Lemma coll_ids_spec which l :
+  Forall in_range3 l -> Forall (fun t => is_element (fst (fst t)) = true) l ->
+  coll_element_ids which l = map pack3 (coll_order which l) /\
+  coll_feature_ids which l = map (fun '(k, r, v) => pack k r 0) (coll_order which l).
+Proof.
+  intros H1 H2. destruct (coll_order_in_range which l H1 H2) as [H3 H4].
+  split; [exact (elements_element_ids_spec _ H3 H4)|exact (elements_feature_ids_spec _ H3 H4)].
+Qed.
+
+(* in particular the versions survive: distinct (ref, version) way nodes give distinct ids *)
+Lemma coll_element_ids_injective which l1 l2 :
+  Forall in_range3 l1 -> Forall (fun t => is_element (fst (fst t)) = true) l1 ->
+  Forall in_range3 l2 -> Forall (fun t => is_element (fst (fst t)) = true) l2 ->
+  coll_element_ids which l1 = coll_element_ids which l2 -> coll_order which l1 = coll_order which l2.
+Proof.
+  intros A1 A2 B1 B2 E.
+  rewrite (proj1 (coll_ids_spec which l1 A1 A2)), (proj1 (coll_ids_spec which l2 B1 B2)) in E.
+  destruct (coll_order_in_range which l1 A1 A2) as [C1 _].
+  destruct (coll_order_in_range which l2 B1 B2) as [C2 _].
+  revert E C1 C2. generalize (coll_order which l1) (coll_order which l2).
+  induction l as [|a l IH]; intros [|b l'] E C1 C2; try discriminate E; [reflexivity|].
+  cbn [map] in E. injection E as E0 E1.
+  inversion C1; inversion C2; subst.
+  f_equal; [apply pack_inj; assumption|apply IH; assumption].
+Qed.
